@@ -123,7 +123,7 @@ def type_product_job(job):
         for vt in range(0, R.V_MAX[version] + 1):
             n += 1
             mon = Monitor({"version": version})
-            hist = [[1, 255, 0, 0, 17, "2.0"], [1, 5, 0, 0, ct, "d"], [1, 5, 1, 0, vt, "v"], [1, 5, 1, 0, vt, "w"], [1, 5, 2, 0, vt, ""], [1, 6, 1, 0, vt, "x"]]
+            hist = [[1, 255, 0, 0, 17, "2.0"], [1, 5, 0, 0, ct, "d" if (ct + vt) % 2 else ""], [1, 5, 1, 0, vt, "v"], [1, 5, 1, 0, vt, "w"], [1, 5, 2, 0, vt, ""], [1, 6, 1, 0, vt, "x"]]
             for i, ev in enumerate(hist):
                 v = mon.apply(ev)
                 for k, w, _x in v:
@@ -150,7 +150,7 @@ def run(ctx: core.Ctx) -> core.Report:
         tot["violations"] += res["violations"]
     tjobs = []
     for v in R.VERSIONS:
-        cts = list(range(0, R.S_MAX[v] + 1))
+        cts = list(range(0, R.S_MAX[v] + 1)) + [R.S_MAX[v] + 1, 99, 255, -1]
         for i in range(0, len(cts), 4):
             tjobs.append((v, cts[i : i + 4]))
     tres = core.pmap(type_product_job, tjobs, ctx.workers, chunksize=1)
